@@ -179,10 +179,17 @@ CLAIMED.update({
 })
 
 CLAIMED.update({
-    "C03": _c("Coq (coq/Properties/C03.v): slice chunks equal produced piece lengths (C13), rechunk blocks have the requested sizes (C15), "
-              "the advertised shape is the denoted shape and modelled rewrites keep advertised shape / chunks; every advertised key of "
-              "generated + directed programs is executed and each block's shape/dtype compared with .chunks/.dtype.",
-              "5/C03", _TB + "ops outside the modelled rules are checked by execution only.", "Coq chunk theorems + block-by-block execution check"),
+    "C03": _c("Coq (coq/Properties/C03.v, 21 obligations): the ADVERTISED-CHUNKS RULE `pchunks : oracle -> prog -> option layout` of the "
+              "reference-semantics programs (ProgChunks.v: slicing = new_blockdim per axis, transpose, expand/squeeze, broadcast_to, flip, "
+              "roll, repeat, diff, reductions, cumulative, explicit rechunk, Elemwise / where / stack / concatenate with the unified layout "
+              "as a per-node oracle only where operands disagree) is proved to be a layout of the advertised AND of the computed shape for "
+              "ALL programs and well-formed oracles, with per-operation exactness lemmas (slice = piece lengths, transpose, concat, flip; "
+              "'flip = reversed chunks' refuted for zero-size chunks); plus the earlier per-axis theorems (C13/C15) and rewrite-keeps-chunks. "
+              "Tie: for every node of every generated program Coq checks pchunks = the chunks dask_array advertises (the real .chunks of "
+              "every node are the oracle table, checked well-formed in Coq); every advertised key of generated + directed + API-surface "
+              "programs is executed and each block's shape/dtype compared with .chunks/.dtype.",
+              "21/C03", _TB + "take, reshape, implicit rechunk specs and repeat > 3 are outside pchunks (checked by execution only); the unified "
+              "layout is an oracle here (its decision layer is C17's model).", "Coq advertised-chunks rule for all programs + per-node tie + block-by-block execution check"),
     "C05": _c("Coq (coq/Properties/C05.v, 17 obligations): a model of FromGraph's key location (expected key / own key / unique covering "
               "name / error) never maps a block to another block; persist rebuild keeps name/chunks/dtype; RootAlias pins (raw, b) to "
               "(optimized, b) bijectively; all entry points equal execution of the pinned graph.  Tie: synthetic and real persisted layers "
